@@ -84,6 +84,7 @@ def run(ctx):
     n_cfg = 0
     items = {}
     fixture_hits = 0
+    n_neg = 0
     batch = 400
     todo = files + [fixture]
     for i in range(0, len(todo), batch):
@@ -102,6 +103,13 @@ def run(ctx):
                         fixture_hits += 1
                     continue
                 n_cfg += 1
+                # a negated feature predicate would make code that only exists when a feature is OFF: such code is invisible
+                # to the union configuration that all other properties analyse, so it must not exist in the libraries
+                if "not(" in d["text"].replace(" ", "") and "not(test)" not in d["text"].replace(" ", ""):
+                    rel = os.path.relpath(d["file"], REPO)
+                    n_neg += 1
+                    ctx.violate("cfg.no-negation", f"{rel}|{d['text'][:80]}", f"{rel}:{d['line']}: `{d['text'][:100]}` selects code by the ABSENCE of a feature: that code is not part of the all-features configuration "
+                                "the codec analyses run on, and configurations no longer expose the same codecs", rel, d["line"])
                 if d["pos"] not in ITEM_LEVEL:
                     rel = os.path.relpath(d["file"], REPO)
                     ctx.violate("cfg.item-level", f"{rel}|{d['pos']}|{d['text'][:80]}",
@@ -117,6 +125,7 @@ def run(ctx):
             n_dup += 1
             rel = os.path.relpath(file, REPO)
             ctx.violate("cfg.item-level", f"{rel}|dup|{module}::{name}", f"{rel}: {kind} `{name}` is defined {len(defs)} times in one module under cfgs {[d[1] for d in defs]}: configurations may see different codecs", rel, defs[0][0])
+    ctx.rule("cfg.no-negation", n_cfg, floor=9000, note=f"cfg predicates without a negated feature ({n_neg} negated found): the all-features configuration contains every item of every configuration")
     ctx.rule("cfg.item-level", n_files - 1, floor=FILES_FLOOR, note=f"library files scanned; {n_cfg} cfg attributes, all at item level; fixture positions recognised: {fixture_hits}")
     # ---- D1: feature matrix ----------------------------------------------------------------------
     jobs = []
